@@ -153,7 +153,9 @@ class Arginfo:
 @dataclass(frozen=True)
 class Signature:
     types: tuple
-    return_type: type
+    # Not part of what tells two definitions apart: a redefinition may add,
+    # change or drop the return annotation
+    return_type: type = field(hash=False, compare=False)
     req_pos: int
     max_pos: int
     req_names: frozenset
